@@ -79,7 +79,8 @@ C("C09", "TestC09", P(800), P(5000, 16, 1500),
   rule="rapid-generated sequential histories over 2..4 handles on one directory (Add, NewAddition+Add*+Commit, CompactAll, AutoCompact, Clean, reopen; auto-compaction per handle); "
        "staleness is computed by the harness from Stack.String() vs tables.list; oracle per step: stale Add/NewAddition => ErrLockFailure and directory (file names + list bytes) unchanged; "
        "after a failed Add UpToDate()==true, NextUpdateIndex() > every committed index, refreshed view == model, immediate retry == nil; stale CompactAll/AutoCompact/Clean change nothing; "
-       "fresh handles never fail; every handle always shows the committed state it last loaded; compactions of arbitrary contiguous ranges make handles stale below the top table; "
+       "fresh handles never fail; every handle always shows one committed state, never an older one than before (exactly the current one where the property fixes a refresh: open, successful Add, failed Add); compactions of arbitrary contiguous ranges make handles stale below the top table; "
+       "an Addition may be held open over the following steps (the write lock stays taken): Add/NewAddition by other handles => ErrLockFailure, directory unchanged, handle refreshed; maintenance changes nothing; after the lock is given back without a commit the failed Add's retry must succeed; "
        "non-trivial = at least one write attempted through a stale handle; distinct = hash of the case JSON",
   technique="stateful property-based testing (rapid): multi-handle sequential histories vs. reference model and directory snapshots",
   level_text="Generated sequential histories with several handles; every write through a stale handle must fail without side effects and the retry must succeed. " + BOUNDED,
